@@ -124,6 +124,122 @@ type visit struct {
 	call  *ssa.Call
 	path  string // normalised, relative to the struct ("LHS", "Param[*]", ...)
 	whole bool   // passed as a whole list to the list visitor
+	// neutral: loop conditions that do not select among children (the counter of a loop over the complete local
+	// array of children)
+	neutral map[ssa.Value]bool
+}
+
+// collectVisits: the child positions of prm (the node struct of check function fn) that are handed to the element
+// visitor or the list visitor — directly; through a local array of children that is ranged over
+// (`for _, n := range [...]*ast.Node{x.A, x.B} { visit(n) }`); or inside a same-package helper that fn hands a
+// child position to (one level, the helper's parameter translated back).
+func collectVisits(fn *ssa.Function, prm *ssa.Parameter, stmtV, listV *ssa.Function, checkFns map[string]*ssa.Function) []visit {
+	var visits []visit
+	isCheckFn := map[*ssa.Function]bool{}
+	for _, f := range checkFns {
+		isCheckFn[f] = true
+	}
+	allInstrs(fn, func(in ssa.Instruction) {
+		call, ok := in.(*ssa.Call)
+		if !ok {
+			return
+		}
+		f := call.Call.StaticCallee()
+		if f == nil {
+			return
+		}
+		if f == stmtV || f == listV {
+			arg := call.Call.Args[len(call.Call.Args)-1]
+			if p, ok := normVisitPath(prm, arg); ok {
+				visits = append(visits, visit{call: call, path: p, whole: f == listV})
+				return
+			}
+			// an element of a local array of children
+			if ld, isL := arg.(*ssa.UnOp); isL && ld.Op == token.MUL {
+				if ia, isI := ld.X.(*ssa.IndexAddr); isI {
+					if arr, isA := ia.X.(*ssa.Alloc); isA && arrayLen(arr.Type()) >= 0 {
+						// the loop that walks the array: `idx < len` (index loop) or the range form, over all of it
+						neutral := map[ssa.Value]bool{}
+						for _, ec := range controlling(call.Block()) {
+							if bo, isB := ec.Cond.(*ssa.BinOp); isB && bo.Op == token.LSS && ec.Pol {
+								if k, isC := constInt(bo.Y); isC && k == arrayLen(arr.Type()) && (bo.X == ia.Index || path(bo.X) == path(ia.Index)) {
+									neutral[ec.Cond] = true
+								}
+							}
+						}
+						for _, ref := range *arr.Referrers() {
+							ia2, isI2 := ref.(*ssa.IndexAddr)
+							if !isI2 {
+								continue
+							}
+							if _, isC := constInt(ia2.Index); !isC {
+								continue
+							}
+							for _, rr := range *ia2.Referrers() {
+								if st, isS := rr.(*ssa.Store); isS && st.Addr == ssa.Value(ia2) {
+									if p, ok := normVisitPath(prm, st.Val); ok {
+										visits = append(visits, visit{call, p, f == listV, neutral})
+									}
+								}
+							}
+						}
+					}
+				}
+			}
+			return
+		}
+		// a helper that receives a child position
+		if f.Pkg != fn.Pkg || len(f.Blocks) == 0 || isCheckFn[f] {
+			return
+		}
+		for k, a := range call.Call.Args {
+			ap, ok := normVisitPath(prm, a)
+			if !ok || k >= len(f.Params) {
+				continue
+			}
+			hp := f.Params[k]
+			allInstrs(f, func(i2 ssa.Instruction) {
+				c2, ok := i2.(*ssa.Call)
+				if !ok {
+					return
+				}
+				g := c2.Call.StaticCallee()
+				if g != stmtV && g != listV {
+					return
+				}
+				// only unconditional visits inside the helper, or visits under a nil test of the parameter itself
+				for _, ec := range controlling(c2.Block()) {
+					if bo, isB := ec.Cond.(*ssa.BinOp); isB && isNilConst(bo.Y) && bo.X == ssa.Value(hp) {
+						continue
+					}
+					if strings.HasSuffix(condStr(ec.Cond), "#1") || strings.Contains(ec.String(), "rangeindex") || strings.Contains(ec.String(), "< len(") {
+						continue
+					}
+					if rejectingOther(ec) {
+						continue
+					}
+					return
+				}
+				sub := path(c2.Call.Args[len(c2.Call.Args)-1])
+				switch {
+				case sub == hp.Name():
+					visits = append(visits, visit{call: call, path: ap, whole: g == listV})
+				case strings.HasPrefix(sub, hp.Name()+"."):
+					visits = append(visits, visit{call: call, path: ap + strings.TrimPrefix(sub, hp.Name()), whole: g == listV})
+				}
+			})
+		}
+	})
+	return visits
+}
+
+// rejectingOther: the arm not taken by this edge rejects (returns an error).
+func rejectingOther(ec edgeCond) bool {
+	other := ec.If.Succs[1]
+	if !ec.Pol {
+		other = ec.If.Succs[0]
+	}
+	return rejecting(other)
 }
 
 func normVisitPath(prm *ssa.Parameter, arg ssa.Value) (string, bool) {
@@ -246,22 +362,7 @@ func c08Pass(c *Ctx, rtp string, k2s map[int64]string, s2k map[string]int64, wri
 		r.Fn(relName(fn))
 		// visits inside fn
 		prm := fn.Params[len(fn.Params)-1]
-		var visits []visit
-		allInstrs(fn, func(in ssa.Instruction) {
-			call, ok := in.(*ssa.Call)
-			if !ok {
-				return
-			}
-			f := call.Call.StaticCallee()
-			if f != stmtV && f != listV {
-				return
-			}
-			p, ok := normVisitPath(prm, call.Call.Args[len(call.Call.Args)-1])
-			if !ok {
-				return
-			}
-			visits = append(visits, visit{call, p, f == listV})
-		})
+		visits := collectVisits(fn, prm, stmtV, listV, checkFns)
 		for _, w := range want {
 			nChild++
 			key := fmt.Sprintf("%s.%s child %s.%s", tag, fn.Name(), sn, w)
@@ -292,6 +393,9 @@ func c08Pass(c *Ctx, rtp string, k2s map[int64]string, s2k map[string]int64, wri
 			// classify the controlling conditions
 			var foreign, facts []string
 			for _, ec := range controlling(hit.call.Block()) {
+				if hit.neutral[ec.Cond] {
+					continue
+				}
 				cls := classifyGuard(ec, prm, w, stmtV, listV)
 				facts = append(facts, ec.String()+" ["+cls+"]")
 				if cls == "foreign" {
@@ -363,10 +467,14 @@ func leafConstrained(fn *ssa.Function, prm *ssa.Parameter, w string) bool {
 			continue
 		}
 		bo, ok := iff.Cond.(*ssa.BinOp)
-		if !ok || bo.Op != token.EQL {
+		if !ok || (bo.Op != token.EQL && bo.Op != token.NEQ) {
 			continue
 		}
-		if path(bo.X) == prm.Name()+"."+w+".NodeType" && rejecting(b.Succs[1]) {
+		rej := b.Succs[1] // the arm taken when the kind differs
+		if bo.Op == token.NEQ {
+			rej = b.Succs[0]
+		}
+		if path(bo.X) == prm.Name()+"."+w+".NodeType" && rejecting(rej) {
 			return true
 		}
 	}
@@ -426,6 +534,7 @@ func c08CallCheck(c *Ctx, tag string, cf, listV *ssa.Function) {
 	prm := cf.Params[len(cf.Params)-1]
 	var getCall, getCheck, dyn *ssa.Call
 	var visitParams *ssa.Call
+	elementLoop := false
 	allInstrs(cf, func(in ssa.Instruction) {
 		call, ok := in.(*ssa.Call)
 		if !ok {
@@ -440,6 +549,10 @@ func c08CallCheck(c *Ctx, tag string, cf, listV *ssa.Function) {
 			}
 			if f == listV && path(call.Call.Args[len(call.Call.Args)-1]) == prm.Name()+".Param" {
 				visitParams = call
+			}
+			// or the element visitor applied to every expr.Param[*] in a loop over the whole list
+			if f != listV && f.Pkg == cf.Pkg && f.Name() == "RunStmtCheck" && path(call.Call.Args[len(call.Call.Args)-1]) == prm.Name()+".Param[*]" {
+				visitParams, elementLoop = call, true
 			}
 		} else if !call.Call.IsInvoke() {
 			if _, isB := call.Call.Value.(*ssa.Builtin); !isB {
@@ -475,6 +588,13 @@ func c08CallCheck(c *Ctx, tag string, cf, listV *ssa.Function) {
 			other := ec.If.Succs[1]
 			if !ec.Pol {
 				other = ec.If.Succs[0]
+			}
+			if elementLoop {
+				// the loop's own continuation test over the same list is not a condition on the visit
+				cs := ec.String()
+				if strings.Contains(cs, "< len("+prm.Name()+".Param)") || strings.Contains(cs, "rangeindex") {
+					continue
+				}
 			}
 			if !rejecting(other) {
 				okv = false
@@ -546,14 +666,35 @@ func markerCallEffect(cc *ssa.CallCommon, pk *ssa.Package) int {
 func c08LoopDepth(c *Ctx, tag string, fn, listV *ssa.Function) {
 	r, t := c.R, c.T
 	prm := fn.Params[len(fn.Params)-1]
-	var body *ssa.Call
+	var body *ssa.Call      // the body visit, in fn
+	var via, inner *ssa.Call // or: fn's call to a helper, and the body visit inside that helper
 	allInstrs(fn, func(in ssa.Instruction) {
-		if x, ok := in.(*ssa.Call); ok && x.Call.StaticCallee() == listV && strings.HasPrefix(path(x.Call.Args[len(x.Call.Args)-1]), prm.Name()+".Body") {
+		x, ok := in.(*ssa.Call)
+		if !ok {
+			return
+		}
+		if x.Call.StaticCallee() == listV && strings.HasPrefix(path(x.Call.Args[len(x.Call.Args)-1]), prm.Name()+".Body") {
 			body = x
+			return
+		}
+		h := x.Call.StaticCallee()
+		if h == nil || h.Pkg != fn.Pkg || len(h.Blocks) == 0 || h == listV {
+			return
+		}
+		for k, a := range x.Call.Args {
+			if k >= len(h.Params) || !strings.HasPrefix(path(a), prm.Name()+".Body") {
+				continue
+			}
+			hp := h.Params[k]
+			allInstrs(h, func(i2 ssa.Instruction) {
+				if c2, ok := i2.(*ssa.Call); ok && c2.Call.StaticCallee() == listV && rootOf(c2.Call.Args[len(c2.Call.Args)-1]) == ssa.Value(hp) {
+					via, inner = x, c2
+				}
+			})
 		}
 	})
 	key := tag + "." + fn.Name()
-	if body == nil {
+	if body == nil && via == nil {
 		r.Ob("LOOP-DEPTH", key+" marker around body", t.Pos(fn.Pos()), false, "body visit not found")
 		return
 	}
@@ -571,31 +712,98 @@ func c08LoopDepth(c *Ctx, tag string, fn, listV *ssa.Function) {
 		return (delta+2)*3 + def
 	}
 	dec := func(st int) (int, int) { return st/3 - 2, st % 3 }
-	ts := &typestate{fn: fn, nstate: 15, init: enc(0, 0)}
-	ts.trans = func(in ssa.Instruction, st int) int {
-		delta, def := dec(st)
-		switch x := in.(type) {
-		case *ssa.Store:
-			delta += markerStoreEffect(in)
-		case *ssa.Call:
-			delta += markerCallEffect(&x.Call, fn.Pkg)
-		case *ssa.Defer:
-			if e := markerCallEffect(&x.Call, fn.Pkg); e < 0 {
-				def += -e
-			} else if mc, ok := x.Call.Value.(*ssa.MakeClosure); ok {
-				allInstrs(mc.Fn.(*ssa.Function), func(in2 ssa.Instruction) {
-					if markerStoreEffect(in2) < 0 {
-						def++
-					}
-				})
-			}
-		case *ssa.RunDefers:
-			delta -= def
-			def = 0
+	// net effect of a helper on every one of its success returns, when it is the same on all of them
+	var flow func(f *ssa.Function, depth int) map[ssa.Instruction]uint16
+	helperEffect := func(cc *ssa.CallCommon, depth int) int {
+		h := cc.StaticCallee()
+		if h == nil || h.Pkg != fn.Pkg || len(h.Blocks) == 0 || depth > 1 {
+			return 0
 		}
-		return enc(delta, def)
+		bf := flow(h, depth+1)
+		eff, set := 0, false
+		okAll := true
+		allInstrs(h, func(in ssa.Instruction) {
+			ret, ok := in.(*ssa.Return)
+			if !ok || ret.Block() == h.Recover || (len(ret.Results) > 0 && retError(ret) == "nonnil") {
+				return
+			}
+			for st := 0; st < 15; st++ {
+				if bf[ret]&(1<<uint(st)) != 0 {
+					d, _ := dec(st)
+					if set && d != eff {
+						okAll = false
+					}
+					eff, set = d, true
+				}
+			}
+		})
+		if okAll && set {
+			return eff
+		}
+		return 0
 	}
-	before := ts.run()
+	flow = func(f *ssa.Function, depth int) map[ssa.Instruction]uint16 {
+		ts := &typestate{fn: f, nstate: 15, init: enc(0, 0)}
+		ts.trans = func(in ssa.Instruction, st int) int {
+			delta, def := dec(st)
+			switch x := in.(type) {
+			case *ssa.Store:
+				delta += markerStoreEffect(in)
+			case *ssa.Call:
+				delta += helperEffect(&x.Call, depth)
+			case *ssa.Defer:
+				if e := helperEffect(&x.Call, depth); e < 0 {
+					def += -e
+				} else if mc, ok := x.Call.Value.(*ssa.MakeClosure); ok {
+					allInstrs(mc.Fn.(*ssa.Function), func(in2 ssa.Instruction) {
+						if markerStoreEffect(in2) < 0 {
+							def++
+						}
+					})
+				}
+			case *ssa.RunDefers:
+				delta -= def
+				def = 0
+			}
+			return enc(delta, def)
+		}
+		return ts.run()
+	}
+	before := flow(fn, 0)
+	if body == nil {
+		// the body is visited inside the helper: depth at the helper call + depth inside the helper before the visit
+		bh := flow(via.Call.StaticCallee(), 1)
+		okBody := true
+		for s1 := 0; s1 < 15; s1++ {
+			if before[via]&(1<<uint(s1)) == 0 {
+				continue
+			}
+			for s2 := 0; s2 < 15; s2++ {
+				if bh[inner]&(1<<uint(s2)) == 0 {
+					continue
+				}
+				d1, _ := dec(s1)
+				d2, _ := dec(s2)
+				if d1+d2 != 1 {
+					okBody = false
+				}
+			}
+		}
+		r.Ob("LOOP-DEPTH", key+" pushes the loop marker before the body visit", t.Pos(via.Pos()), okBody,
+			"while the body is checked (inside "+via.Call.StaticCallee().Name()+") the marker stack must be exactly one deeper than at entry")
+		body = via
+	} else {
+		okBody := true
+		for st := 0; st < 15; st++ {
+			if before[body]&(1<<uint(st)) != 0 {
+				if d, _ := dec(st); d != 1 {
+					okBody = false
+				}
+			}
+		}
+		r.Ob("LOOP-DEPTH", key+" pushes the loop marker before the body visit", t.Pos(body.Pos()), okBody,
+			"while the body is checked the marker stack must be exactly one deeper than at entry")
+	}
 	describe := func(m uint16) string {
 		var ds []string
 		for st := 0; st < 15; st++ {
@@ -606,17 +814,6 @@ func c08LoopDepth(c *Ctx, tag string, fn, listV *ssa.Function) {
 		}
 		return strings.Join(ds, ", ")
 	}
-	// at the body visit: exactly +1
-	okBody := true
-	for st := 0; st < 15; st++ {
-		if before[body]&(1<<uint(st)) != 0 {
-			if d, _ := dec(st); d != 1 {
-				okBody = false
-			}
-		}
-	}
-	r.Ob("LOOP-DEPTH", key+" pushes the loop marker before the body visit", t.Pos(body.Pos()), okBody,
-		"while the body is checked the marker stack must be exactly one deeper than at entry; possible states: "+describe(before[body]))
 	// at every success return: exactly 0
 	okRet := true
 	var where ssa.Instruction
@@ -700,6 +897,22 @@ func c08Registry(c *Ctx) {
 	r.Floor("CHECKER-ARITY", 23)
 }
 
+// checkedOnNilArm: instruction `at` is controlled by the nil arm of script.Check(...) for this very script value.
+func checkedOnNilArm(at ssa.Instruction, script ssa.Value) bool {
+	for _, ec := range controlling(at.Block()) {
+		if bo, ok := ec.Cond.(*ssa.BinOp); ok && isNilConst(bo.Y) {
+			if call, ok := bo.X.(*ssa.Call); ok && call.Call.StaticCallee() != nil && call.Call.StaticCallee().Name() == "Check" {
+				if (bo.Op == token.NEQ && !ec.Pol) || (bo.Op == token.EQL && ec.Pol) {
+					if call.Call.Args[0] == script {
+						return true
+					}
+				}
+			}
+		}
+	}
+	return false
+}
+
 func c08LoadChecks(c *Ctx) {
 	r, t := c.R, c.T
 	// ParseScript: retMap[name] = p only on the nil arm of p.Check(check)
@@ -715,17 +928,35 @@ func c08LoadChecks(c *Ctx) {
 				return
 			}
 			n++
-			okk := false
-			for _, ec := range controlling(mu.Block()) {
-				if bo, ok := ec.Cond.(*ssa.BinOp); ok && isNilConst(bo.Y) {
-					if call, ok := bo.X.(*ssa.Call); ok && call.Call.StaticCallee() != nil && call.Call.StaticCallee().Name() == "Check" {
-						if (bo.Op == token.NEQ && !ec.Pol) || (bo.Op == token.EQL && ec.Pol) {
-							// the checked script is the stored one
-							if call.Call.Args[0] == mu.Value {
-								okk = true
+			okk := checkedOnNilArm(mu, mu.Value)
+			// or the script comes out of a helper (value, error) whose error was tested nil here and whose every
+			// nil-error return hands out a script checked on the nil arm inside the helper
+			if ex, isE := mu.Value.(*ssa.Extract); isE && !okk {
+				if hc, isC := ex.Tuple.(*ssa.Call); isC && hc.Call.StaticCallee() != nil && len(hc.Call.StaticCallee().Blocks) > 0 {
+					h := hc.Call.StaticCallee()
+					nres := h.Signature.Results().Len()
+					tested := false
+					for _, ec := range controlling(mu.Block()) {
+						if bo, ok := ec.Cond.(*ssa.BinOp); ok && isNilConst(bo.Y) {
+							if e2, ok := bo.X.(*ssa.Extract); ok && e2.Tuple == ex.Tuple && e2.Index == nres-1 {
+								if (bo.Op == token.NEQ && !ec.Pol) || (bo.Op == token.EQL && ec.Pol) {
+									tested = true
+								}
 							}
 						}
 					}
+					all, nret := true, 0
+					allInstrs(h, func(i2 ssa.Instruction) {
+						ret, ok := i2.(*ssa.Return)
+						if !ok || ret.Block() == h.Recover || len(ret.Results) != nres || retError(ret) == "nonnil" {
+							return
+						}
+						nret++
+						if !checkedOnNilArm(ret, ret.Results[ex.Index]) {
+							all = false
+						}
+					})
+					okk = tested && all && nret > 0
 				}
 			}
 			r.Ob("LOAD-CHECKS", "ParseScript accepts a script", t.Pos(mu.Pos()), okk, "a parsed script enters the accepted set only on the nil-error arm of its own Check")
